@@ -12,7 +12,7 @@ WITNESSES = {'all': ['loaded-equal', 'line-breaks', 'comments', 'blank-lines', '
 OPTS = {'quick': {'selfcheck_mod': 40, 'budget_s': 280, 'max_paths_per_case': 5000}, 'thorough': {'selfcheck_mod': 400, 'budget_s': 3000, 'max_paths_per_case': 20000}}
 STEP_LIMIT = 3_000_000
 BOUNDS = {
-    'quick': '12 programs of 1-4 rules (facts, conjunctions, disjunctions, lists, quoted atoms containing `, . #`, escaped commas, float literals and infix `= < + *` in bodies); '
+    'quick': '13 programs of 1-4 rules (facts, names outside ASCII, conjunctions, disjunctions, lists, quoted atoms containing `, . #`, escaped commas, float literals and infix `= < + *` in bodies); '
              'each rendered with a symbolic layout character (space or line feed, decided by the solver) after every documented continuation character `-` `,` `;` `=` outside '
              'brackets (up to 8 per program: all 2^k layouts in one exploration), in 3 decorations: plain, with `#` / `%` / `//` comment lines and trailing comments, with blank lines and continuation lines indented by a space or a tab (also a solver variable; up to 4 break points); oracle: load returns an error, or format_kb and every stored rule equal those of parse_rule applied to each rule on one line',
     'thorough': '30 programs, layout characters also after commas inside parentheses and brackets (comments only where the running depth is 0)',
@@ -33,6 +33,7 @@ PROGRAMS = [
     ['a1($X) :- not(p($X)), $X == b, nl.', 'b1(\\,, a).'],
     ['c1($L) :- append(a, [b, c], $L), count($L, $N), $N >= 3.'],
     ['d1 :- p(a), q(b).', 'e1($X) :- $X = f(g(1, 2.5), [x, y | $T]).'],
+    ['ville(Montréal, $P) :- größe($P, Δ), $P < 3.25.', 'é(ü).', '日本($X) :- 東京($X), $X = ß.'],
 ]
 MORE = [
     ['f1($X) :- $X = 1.0e3.'], ['g1($X, $Y) :- $Y = $X * 2.5, $Y > 1.'], ['h1([a, b, c]).', 'h1([]).', 'h1([$X]) :- p($X).'],
